@@ -703,6 +703,26 @@ impl BytecodeInterpreter {
     }
 }
 
+/// Verification hook (feature `verif-hooks`): compile one typed expression as an expression
+/// statement and run it with an empty execution context.
+#[cfg(feature = "verif-hooks")]
+impl BytecodeInterpreter {
+    pub fn verif_new() -> Self {
+        <Self as Interpreter>::new()
+    }
+
+    pub fn verif_run_expression(&mut self, expr: &Expression) -> Result<InterpreterResult> {
+        self.compile_expression(expr);
+        self.vm.add_op(Op::Return, expr.full_span());
+        let mut settings = InterpreterSettings::default();
+        self.run(
+            &mut settings,
+            &crate::prefix_transformer::Transformer::new(),
+            &TypeChecker::default(),
+        )
+    }
+}
+
 impl Interpreter for BytecodeInterpreter {
     fn new() -> Self {
         Self {
